@@ -164,9 +164,9 @@ static void mode_recv(vf::Ctx& c)
 	}
 	shutdown(fd, SHUT_WR);
 	double t0 = vf::now();
-	while (!done && vf::now() - t0 < 30) { struct pollfd p = {fd, POLLIN, 0}; if (poll(&p, 1, 20) > 0) { ssize_t k = recv(fd, buf, sizeof buf, MSG_DONTWAIT); if (k > 0) pongs.append(buf, k); } }
+	while (!done && vf::now() - t0 < 90) { struct pollfd p = {fd, POLLIN, 0}; if (poll(&p, 1, 20) > 0) { ssize_t k = recv(fd, buf, sizeof buf, MSG_DONTWAIT); if (k > 0) pongs.append(buf, k); } }
 	close(fd);
-	if (!done) { rx.detach(); c.fail_exit("recv.receive-does-not-return-after-peer-closed", "30 s after the peer closed"); }
+	if (!done) { rx.detach(); c.fail_exit("recv.receive-does-not-return-after-peer-closed", "90 s after the peer closed"); }
 	rx.join();
 	if (negative) c.fail("recv.message-of-negative-length", "");
 	if (got.size() != sent.size()) {
@@ -391,7 +391,7 @@ static void runHostile(vf::Ctx& c, const std::string& stream, bool aslIsClient, 
 	close(fd);
 	double t0 = vf::now();
 	while (!done && vf::now() - t0 < 30) { struct timespec ts = {0, 1000000}; nanosleep(&ts, 0); }
-	if (!done) { rx.detach(); c.desc(what); c.fail_exit("hostile.receive-does-not-return-after-peer-closed", "30 s after the peer closed"); }
+	if (!done) { rx.detach(); c.desc(what); c.fail_exit("hostile.receive-does-not-return-after-peer-closed", "90 s after the peer closed"); }
 	rx.join();
 	if (negative) { c.desc(what); c.fail("hostile.message-of-negative-length", ""); }
 	if (badalloc) c.count("bad_alloc_connection_failed(allowed)");
